@@ -33,7 +33,9 @@ Fixpoint labels_eqb (a b : list label) : bool :=
 (* the members' outputs for ONE instance *)
 Inductive inst_members :=
   | IVotes (vs : list (label * Q))        (* (member's predicted label, member's weight) *)
-  | IRows (rows : list (list Q)).         (* member's probability row *)
+  | IRows (rows : list (list Q))          (* member's probability row, columns = classes_ *)
+  | ITrees (ts : list (list label * list Q)).
+      (* forests: per tree (the tree's OWN classes_, the tree's own probability row over them) *)
 Record inst := mkinst { i_mem : inst_members; i_proba : list Q; i_pred : label }.
 
 (* how the classifier picks among maximal entries *)
@@ -47,6 +49,17 @@ Definition model_row (classes : list label) (m : inst_members) : list Q :=
   match m with
   | IVotes vs => vote_row label_eqb classes vs
   | IRows rows => mean_rows (length classes) rows
+  | ITrees ts => mean_rows (length classes)
+                   (map (fun t => place_row label_eqb classes (fst t) (snd t)) ts)
+  end.
+
+(* hypotheses of the forest theorem, checked on the recorded trees: a tree's row has one entry per
+   class of the tree, and the tree's classes are classes of the forest *)
+Definition members_wf (classes : list label) (m : inst_members) : bool :=
+  match m with
+  | ITrees ts => forallb (fun t => Nat.eqb (length (snd t)) (length (fst t)) &&
+                                   forallb (fun c => existsb (label_eqb c) classes) (fst t)) ts
+  | _ => true
   end.
 
 Definition pred_ok (t : tie) (classes : list label) (row : list Q) (p : label) : bool :=
@@ -59,6 +72,7 @@ Definition pred_ok (t : tie) (classes : list label) (row : list Q) (p : label) :
   end.
 
 Definition inst_ok (t : tie) (classes : list label) (i : inst) : bool :=
+  members_wf classes (i_mem i) &&
   approx_list (model_row classes (i_mem i)) (i_proba i) && pred_ok t classes (i_proba i) (i_pred i).
 
 Definition clf_ok (c : clf_case) : bool :=
